@@ -210,14 +210,133 @@ Definition oracle_spec_likely (op : bytes) (args : list bytes) (impl : bytes) : 
   else if beqb op (bs "cldr_version") then Some (beqb impl (bs CldrLikely.cldr_json_version))
   else None.
 
+(* ================================================================== language identifiers *)
+From UL Require Import LangIdSpec Canonical.
+
+Definition comma : bytes := [44].
+Fixpoint join_with (sep : bytes) (l : list bytes) : bytes :=
+  match l with [] => [] | [x] => x | x :: r => x ++ sep ++ join_with sep r end.
+Definition fmt_variants (o : option (list bytes)) : bytes :=
+  match o with None => bs "none" | Some l => bs "[" ++ join_with comma l ++ bs "]" end.
+Definition fmt_langid (x : langid) : bytes :=
+  language_text (li_lang x) ++ sp ++ fmt_opt (li_script x) ++ sp ++ fmt_opt (li_region x) ++ sp
+  ++ fmt_variants (li_variants x) ++ sp ++ li_to_string x.
+Definition fmt_cmp (c : comparison) : bytes := match c with Lt => bs "Less" | Eq => bs "Equal" | Gt => bs "Greater" end.
+Definition flag (a : bytes) : bool := beqb a (bs "1").
+
+(* args: lang script region v1 .. vn, each already a valid subtag text in any case ("" = absent) *)
+Definition parts_of_args (args : list bytes) : option (option bytes * option bytes * option bytes * list bytes) :=
+  match args with
+  | l :: s0 :: r :: vs =>
+    let lo := match l with [] => Some None | _ => match language_from_bytes l with Ok x => Some x | _ => None end end in
+    let so := match s0 with [] => Some None | _ => match script_from_bytes s0 with Ok x => Some (Some x) | _ => None end end in
+    let ro := match r with [] => Some None | _ => match region_from_bytes r with Ok x => Some (Some x) | _ => None end end in
+    let vo := fold_right (fun v acc => match acc, variant_from_bytes v with Some a, Ok x => Some (x :: a) | _, _ => None end) (Some []) vs in
+    match lo, so, ro, vo with
+    | Some a, Some b, Some c, Some d => Some (a, b, c, d)
+    | _, _, _, _ => None
+    end
+  | _ => None
+  end.
+
+Definition model_li_roundtrip (a : bytes) : bytes :=
+  match langid_from_bytes a with
+  | Ok x => match langid_from_bytes (li_to_string x) with
+            | Ok y => if li_eqb x y then bs "OK same" else bs "DIFF"
+            | _ => bs "REPARSE-ERR"
+            end
+  | Err e => fmt_err e
+  | _ => bs "PANIC"
+  end.
+
+Definition oracle_model_langid (op : bytes) (args : list bytes) : option bytes :=
+  let a := arg1 args in
+  if beqb op (bs "langid") then Some (fmt_res fmt_langid (langid_from_bytes a))
+  else if beqb op (bs "li_canonicalize") then Some (fmt_res (fun x => x) (li_canonicalize a))
+  else if beqb op (bs "li_roundtrip") then Some (model_li_roundtrip a)
+  else if beqb op (bs "li_from_parts") then
+    Some (match parts_of_args args with
+          | Some (l, s0, r, vs) =>
+            let x := li_from_parts l s0 r vs in
+            (* from_parts equals parsing the joined string *)
+            let y := langid_from_bytes (join (language_text l :: opt_tok s0 ++ opt_tok r ++ vs)) in
+            fmt_langid x ++ sp ++ (match y with Ok y' => if li_eqb x y' then bs "eqparse" else bs "NEparse" | _ => bs "NOparse" end)
+          | None => bs "BADARG" end)
+  else if beqb op (bs "li_into_parts") then
+    Some (match langid_from_bytes a with
+          | Ok x => match li_into_parts x with (l, s0, r, vs) =>
+                      if li_eqb (li_from_parts l s0 r vs) x then bs "OK same" else bs "DIFF" end
+          | _ => bs "BADARG" end)
+  else if beqb op (bs "li_matches") then
+    Some (match langid_from_bytes (arg_n 0 args), langid_from_bytes (arg_n 1 args) with
+          | Ok x, Ok y => fmt_bool (li_matches x y (flag (arg_n 2 args)) (flag (arg_n 3 args)))
+          | _, _ => bs "BADARG" end)
+  else if beqb op (bs "lang_matches") then
+    Some (match language_try_from (opt_arg (arg_n 0 args)), language_try_from (opt_arg (arg_n 1 args)) with
+          | Ok x, Ok y => fmt_bool (lang_matches x y (flag (arg_n 2 args)) (flag (arg_n 3 args)))
+          | _, _ => bs "BADARG" end)
+  else if beqb op (bs "li_cmp") then
+    Some (match langid_from_bytes (arg_n 0 args), langid_from_bytes (arg_n 1 args) with
+          | Ok x, Ok y => fmt_cmp (li_cmp x y) ++ sp ++ fmt_bool (li_eqb x y) ++ sp ++ fmt_bool (beqb (li_to_string x) (li_to_string y))
+          | _, _ => bs "BADARG" end)
+  else if beqb op (bs "li_eq_str") then
+    Some (match langid_from_bytes (arg_n 0 args) with
+          | Ok x => fmt_bool (beqb (li_to_string x) (arg_n 1 args))
+          | _ => bs "BADARG" end)
+  else None.
+
+(* --- spec side --- *)
+Definition spec_li_matches (x y : langid) (ra rb : bool) : bool :=
+  let fld (a b : option bytes) := obeqb a b || (ra && is_none a) || (rb && is_none b) in
+  let vempty (o : option (list bytes)) := match o with None => true | Some [] => true | _ => false end in
+  fld (li_lang x) (li_lang y) && fld (li_script x) (li_script y) && fld (li_region x) (li_region y)
+  && (olbeqb (li_variants x) (li_variants y) || (ra && vempty (li_variants x)) || (rb && vempty (li_variants y))).
+
+Definition oracle_spec_langid (op : bytes) (args : list bytes) (impl : bytes) : option bool :=
+  let a := arg1 args in
+  if beqb op (bs "langid") then
+    Some (match spec_langid (split a) with
+          | Some v => beqb impl (bs "OK " ++ fmt_langid v)
+          | None => beqb impl (fmt_err (spec_langid_err (split a))) end)
+  else if beqb op (bs "li_canonicalize") then
+    Some (match spec_langid (split a) with
+          | Some v => beqb impl (bs "OK " ++ li_to_string v)
+                      && canon_langid_text (li_to_string v) && (List.length (li_to_string v) <=? List.length a)%nat
+          | None => beqb impl (fmt_err (spec_langid_err (split a))) end)
+  else if beqb op (bs "li_roundtrip") then
+    Some (match spec_langid (split a) with
+          | Some _ => beqb impl (bs "OK same")
+          | None => beqb impl (fmt_err (spec_langid_err (split a))) end)
+  else if beqb op (bs "li_into_parts") then
+    Some (match spec_langid (split a) with Some _ => beqb impl (bs "OK same") | None => true end)
+  else if beqb op (bs "li_matches") then
+    Some (match spec_langid (split (arg_n 0 args)), spec_langid (split (arg_n 1 args)) with
+          | Some x, Some y => beqb impl (fmt_bool (spec_li_matches x y (flag (arg_n 2 args)) (flag (arg_n 3 args))))
+          | _, _ => true end)
+  else if beqb op (bs "li_cmp") then
+    Some (match spec_langid (split (arg_n 0 args)), spec_langid (split (arg_n 1 args)) with
+          | Some x, Some y =>
+            let same := beqb (li_to_string x) (li_to_string y) in
+            (* == iff equal canonical strings; Equal iff ==; the order is the field-wise one *)
+            beqb impl (fmt_cmp (li_cmp x y) ++ sp ++ fmt_bool same ++ sp ++ fmt_bool same)
+            && Bool.eqb same (match li_cmp x y with Eq => true | _ => false end)
+          | _, _ => true end)
+  else if beqb op (bs "li_eq_str") then
+    Some (match spec_langid (split (arg_n 0 args)) with
+          | Some x => beqb impl (fmt_bool (beqb (li_to_string x) (arg_n 1 args)))
+          | None => true end)
+  else None.
+
 (* ------------------------------------------------------------------ top level *)
 Definition oracle_model (op : bytes) (args : list bytes) : bytes :=
   match oracle_model_subtags op args with Some r => r | None =>
   match oracle_model_likely op args with Some r => r | None =>
-  bs "UNKNOWN-OP" end end.
+  match oracle_model_langid op args with Some r => r | None =>
+  bs "UNKNOWN-OP" end end end.
 
 (* None = no specification attached to this operation (only the model is compared) *)
 Definition oracle_spec (op : bytes) (args : list bytes) (impl : bytes) : option bool :=
   match oracle_spec_subtags op args impl with Some r => Some r | None =>
   match oracle_spec_likely op args impl with Some r => Some r | None =>
-  None end end.
+  match oracle_spec_langid op args impl with Some r => Some r | None =>
+  None end end end.
